@@ -538,7 +538,40 @@ fn fs_scenarios(ctx: &mut Ctx, funcs: &BTreeMap<String, Arc<Function>>, cfg: &Cf
         ("fs.rename", vec![sv(&p("dir_empty")), sv(&p("dir_nonempty"))], false, exists("dir_empty", true)),
         ("fs.rename", vec![sv(&p("file.txt")), sv(&p("dir_empty"))], false, exists("file.txt", true)),
         ("fs.rename", vec![sv(&p("file.txt")), sv(&p("no_parent/x"))], false, exists("file.txt", true)),
+        // an existing target: replaced by a successful rename / copy, left alone by a failing one
+        ("fs.rename", vec![sv(&p("file.txt")), sv(&p("bin.dat"))], true, Box::new(|r, _| (std::fs::read(r.join("bin.dat")).ok().as_deref() != Some(b"hello".as_slice()) || r.join("file.txt").exists()).then(|| "bin.dat should now hold file.txt's contents and file.txt be gone".to_string()))),
+        ("fs.rename", vec![sv(&p("missing.txt")), sv(&p("file.txt"))], false, none()),
+        ("fs.rename", vec![sv(&p("dir_empty")), sv(&p("file.txt"))], false, none()),
+        ("fs.rename", vec![sv(&p("dir_nonempty")), sv(&p("file.txt"))], false, none()),
+        ("fs.rename", vec![sv(&p("file.txt")), sv(&p("file.txt"))], true, Box::new(|r, _| (std::fs::read_to_string(r.join("file.txt")).ok().as_deref() != Some("hello")).then(|| "renaming a file onto itself changed it".to_string()))),
+        ("fs.copy_file", vec![sv(&p("file.txt")), sv(&p("bin.dat"))], true, Box::new(|r, _| (std::fs::read(r.join("bin.dat")).ok().as_deref() != Some(b"hello".as_slice()) || !r.join("file.txt").exists()).then(|| "bin.dat should now hold a copy of file.txt".to_string()))),
+        ("fs.copy_file", vec![sv(&p("missing.txt")), sv(&p("file.txt"))], false, none()),
+        ("fs.copy_file", vec![sv(&p("dir_empty")), sv(&p("file.txt"))], false, none()),
+        ("fs.create_dir", vec![sv(&p("file.txt"))], false, none()),
+        ("fs.create_dir_all", vec![sv(&p("file.txt"))], false, none()),
+        ("fs.remove_dir_all", vec![sv(&p("file.txt"))], false, none()),
+        ("fs.remove_file", vec![sv(&p("dir_nonempty"))], false, none()),
     ];
+    // the scratch tree as (relative path, contents or "<dir>"), to see that a call reporting failure changed nothing
+    fn tree(root: &std::path::Path) -> Vec<(String, Vec<u8>)> {
+        fn walk(dir: &std::path::Path, root: &std::path::Path, out: &mut Vec<(String, Vec<u8>)>) {
+            let Ok(rd) = std::fs::read_dir(dir) else { return };
+            for e in rd.flatten() {
+                let path = e.path();
+                let rel = path.strip_prefix(root).map(|p| p.to_string_lossy().to_string()).unwrap_or_default();
+                if path.is_dir() {
+                    out.push((rel, b"<dir>".to_vec()));
+                    walk(&path, root, out);
+                } else {
+                    out.push((rel, std::fs::read(&path).unwrap_or_default()));
+                }
+            }
+        }
+        let mut out = Vec::new();
+        walk(root, root, &mut out);
+        out.sort();
+        out
+    }
     let err_ty = error_struct();
     for (path, args, must_succeed, effect) in cases {
         let Some(fun) = funcs.get(path) else {
@@ -546,6 +579,7 @@ fn fs_scenarios(ctx: &mut Ctx, funcs: &BTreeMap<String, Arc<Function>>, cfg: &Cf
             continue;
         };
         reset(&root);
+        let before = tree(&root);
         let Some(v) = ctx.call(path, fun, &args, false) else { continue };
         ctx.rep.count("fs-fault-states");
         ctx.rep.shape("fs_scenarios", &format!("{path}:{}", if must_succeed { "success" } else { "failure" }));
@@ -557,6 +591,11 @@ fn fs_scenarios(ctx: &mut Ctx, funcs: &BTreeMap<String, Arc<Function>>, cfg: &Cf
             ctx.rep.violation(&format!("c18:{path}:failure-not-reported"), &format!("{shown}: the operating system refuses this, but the call returned {} instead of struct{{error_code, msg}}", truncate(&canon(&v), 200)), "c18", &shown);
         } else if let Some(why) = effect(&root, &v) {
             ctx.rep.violation(&format!("c18:{path}:file-system-effect"), &format!("{shown}: {why}"), "c18", &shown);
+        } else if !must_succeed && tree(&root) != before {
+            let after = tree(&root);
+            let gone: Vec<&String> = before.iter().filter(|e| !after.contains(e)).map(|(p, _)| p).collect();
+            let new: Vec<&String> = after.iter().filter(|e| !before.contains(e)).map(|(p, _)| p).collect();
+            ctx.rep.violation(&format!("c18:{path}:failed-call-changed-the-file-system"), &format!("{shown} reported a failure but changed the scratch tree (gone or altered: {gone:?}; new or altered: {new:?})"), "c18", &shown);
         }
     }
     let _ = std::fs::remove_dir_all(&root);
